@@ -150,6 +150,26 @@ def grep_escape_hatches() -> list[str]:
   return hits
 
 
+def leanchecker(prop: str) -> dict:
+  """thorough tier: independent re-check of the compiled proofs (all QKV modules the property
+  theorems depend on) with the toolchain's `leanchecker`"""
+  mods = ["QKV.Props." + prop]
+  for sub in ("Lemmas", "Model"):
+    d = os.path.join(LEAN_DIR, "QKV", sub)
+    if os.path.isdir(d):
+      mods += ["QKV.%s.%s" % (sub, f[:-5]) for f in sorted(os.listdir(d)) if f.endswith(".lean")]
+  # only modules that are built (dependencies of this property's Props module were built by audit)
+  built = []
+  for m in mods:
+    path = os.path.join(LEAN_DIR, ".lake", "build", "lib", "lean", *m.split(".")) + ".olean"
+    if os.path.exists(path):
+      built.append(m)
+  t0 = time.time()
+  p = subprocess.run(["lake", "env", "leanchecker"] + built, cwd=LEAN_DIR, capture_output=True, text=True)
+  return {"ok": p.returncode == 0, "modules": len(built), "wall_s": round(time.time() - t0, 1),
+          "log": (p.stdout + p.stderr)[-1500:] if p.returncode != 0 else ""}
+
+
 def audit(prop: str) -> dict:
   """build the proofs of `prop` and list every theorem of QKV.Props.<prop> with its axioms.
 
